@@ -607,6 +607,14 @@ fn replay(a: &Args) -> i32 {
             let identical = x.ops == rf.violation.ops && x.seq == rf.violation.seq && x.msg == rf.violation.msg;
             println!("VIOLATION property={} replay={}", rf.property, path);
             println!("reproduced{}: {} [{}] {}", if identical { " exactly" } else { " (same kind, different record)" }, x.prop, x.kind, x.msg);
+            if !identical && a.get("refresh").is_some() {
+                // the harness's own event numbering changed since the file was written: store the record as it is now
+                let mut v: serde_json::Value = serde_json::from_str(&text).unwrap();
+                v["violation"] = serde_json::to_value(x).unwrap();
+                v["events_tail"] = serde_json::to_value(events_tail(&rep.world, 60)).unwrap();
+                std::fs::write(path, serde_json::to_string_pretty(&v).unwrap()).expect("rewrite replay");
+                println!("record refreshed");
+            }
             1
         }
         None => {
